@@ -2823,6 +2823,92 @@ theorem C05_deadLetter_keeps_order {db : Db} {d : Delivery} {dlt : Id} {now : Ti
           · exact rowUpdOk_refl db1 now _ rfl x
       exact hinv1.step hok
 
+/-- the loop of the dead-letter sweep keeps the ordering invariant: every row it retires is still in
+    the table, unchanged, when its turn comes (the rows have distinct ids) -/
+theorem sweepLoop_keeps_order (now : Time) (fwds : List (Id × List Fwd)) :
+    ∀ (rows : List Delivery) (db : Db) (wakes : List Id) (db' : Db) (w : List Id),
+      sweepLoop now fwds rows db wakes = .ok (db', w) →
+      Inv2 db now →
+      (∀ a ∈ db.subs, ∀ b ∈ db.subs, a.live = true → b.live = true → a.id = b.id → a = b) →
+      (rows.map (·.id)).Nodup →
+      (∀ d ∈ rows, findDel db.dels d.id = some d ∧ 0 < d.attempts) →
+      Inv2 db' now := by
+  intro rows
+  induction rows with
+  | nil =>
+    intro db wakes db' w h hinv _ _ _
+    unfold sweepLoop at h
+    injection h with h; injection h with e1 _; subst e1; exact hinv
+  | cons d r ih =>
+    intro db wakes db' w h hinv huniq hnd hrows
+    unfold sweepLoop at h
+    split at h
+    · cases h
+    · rename_i dlt _
+      split at h
+      · cases h
+      · rename_i db1 w1 hdl
+        have hd := (hrows d (List.mem_cons_self ..))
+        have hdm : d ∈ db.dels := List.mem_of_find?_eq_some hd.1
+        have hinv1 := C05_deadLetter_keeps_order hdl hinv huniq hdm hd.2
+        have hsame := deadLetter_other hdl
+        simp only [List.map_cons, List.nodup_cons] at hnd
+        refine ih db1 _ db' w h hinv1 (by rw [hsame.2.1]; exact huniq) hnd.2 ?_
+        intro x hx
+        have hxr := hrows x (List.mem_cons_of_mem _ hx)
+        refine ⟨deadLetter_keeps hdl ?_ hxr.1, hxr.2⟩
+        intro heq
+        exact hnd.1 (List.mem_map.mpr ⟨x, hx, heq.symm⟩)
+
+/-- **the dead-letter sweep keeps the ordering invariant**, whatever number of deliveries — of one key
+    or several, into one ordered subscription or several — it forwards in its one transaction -/
+theorem C05_sweep_keeps_order {db : Db} {now : Time} {mx : Nat} {victims : List Id} {fwds : List (Id × List Fwd)}
+    {o : TxOut Nat} (h : dlSweep db now mx victims fwds = .ok o) (hinv : Inv2 db now)
+    (huniq : ∀ a ∈ db.subs, ∀ b ∈ db.subs, a.live = true → b.live = true → a.id = b.id → a = b) :
+    Inv2 o.db now := by
+  unfold dlSweep at h
+  split at h
+  · cases h
+  · rename_i hlim
+    have hlim' : limitOk db.dels db.delById (sweepCand db now) victims mx = true := by simpa using hlim
+    split at h
+    · cases h
+    · rename_i rows hrows
+      split at h
+      · cases h
+      · rename_i db1 wakes hloop
+        injection h with h; subst h
+        have hids : rows.map (·.id) = victims :=
+          lookupAll_ids (f := db.delById) (fun i d hd => by
+            unfold Db.delById at hd
+            simpa using List.find?_some hd) victims rows hrows
+        have hnd : victims.Nodup := by
+          unfold limitOk at hlim'
+          simp only [Bool.and_eq_true] at hlim'
+          exact (nodupIds_iff _).mp hlim'.1.1
+        refine sweepLoop_keeps_order now fwds rows db [] db1 wakes hloop hinv huniq (by rw [hids]; exact hnd) ?_
+        intro d hd
+        obtain ⟨i, hi, hfi⟩ := lookupAll_spec db.delById victims rows hrows d hd
+        have hdid : d.id = i := by
+          unfold Db.delById at hfi
+          simpa using List.find?_some hfi
+        refine ⟨by rw [hdid]; exact hfi, ?_⟩
+        obtain ⟨r, hr, hp⟩ := limitOk_victims hlim' i hi
+        rw [hfi] at hr; injection hr with hr; subst hr
+        unfold sweepCand at hp
+        simp only [Bool.and_eq_true] at hp
+        have hp2 := hp.2
+        cases hsb : db.subById d.subId with
+        | none => rw [hsb] at hp2; simp at hp2
+        | some s =>
+          rw [hsb] at hp2
+          simp only [Bool.and_eq_true] at hp2
+          have hp3 := hp2.2
+          revert hp3
+          cases s.maxAttempts <;> cases s.dlTopicId <;> simp
+          intro h1 h2
+          omega
+
 end deadletter2
 
 end Mmmbbb
